@@ -6,6 +6,7 @@ import MtblProofs.TpShareProofs
 import MtblProofs.TpKOrder
 import MtblProofs.TpKWake
 import MtblProofs.TpKUnord
+import MtblProofs.TpKDead
 import MtblProofs.OwnerProofs
 /-
   C13 — Pooled writers and sorters: same result under every interleaving, no hangs.
@@ -288,6 +289,39 @@ theorem C13_kclient_joined_first {n max njobs : Nat} {o : Bool} {s : St} (hr : R
     (ho : afterJoin s.opc = true) : (∀ c : Nat, s.cl[c]!.pc = .done ∨ s.cl[c]!.pc = .idle) ∧ S s = 0 :=
   ⟨(wk_reachable hr).over ho, (wk_reachable hr).no_sleeper ho⟩
 
+/-- NO DEADLOCK, for every number of clients: in every reachable state in which the pool owner has not returned from
+    `threadpool_destroy`, some thread can take a real step (no spurious wake-up needed) — so no `result_handler_destroy`
+    (a writer's or sorter's close), no join and no `threadpool_destroy` can be left waiting with every thread asleep.
+    `1 ≤ max` is the guard `mtbl_threadpool_init` applies (`thread_count > 0`, else no pool is created); without it the
+    statement is false (witness below). -/
+theorem C13_kclient_no_deadlock {n max njobs : Nat} {o : Bool} {s : St} (hr : Reachable n max njobs o s) (hn : 1 ≤ n)
+    (hm : 1 ≤ max) (hd : s.opc ≠ .done) : ∃ w, (step s (.run w 0)).isSome = true :=
+  no_deadlock hr hn hm hd
+
+/-- hence a state in which nobody can move is the final one: the owner is back from `threadpool_destroy`, every client
+    thread has returned, and (by `C13_kclient_complete` / `C13_kclient_unordered_complete`) each got all of its results -/
+theorem C13_kclient_no_hang {n max njobs : Nat} {o : Bool} {s : St} (hr : Reachable n max njobs o s) (hn : 1 ≤ n)
+    (hm : 1 ≤ max) (hq : ∀ w, (step s (.run w 0)).isSome = false) :
+    s.opc = .done ∧ ∀ c : Nat, s.cl[c]!.pc = .done ∨ s.cl[c]!.pc = .idle := by
+  have hd : s.opc = .done := by
+    apply Classical.byContradiction; intro hx
+    obtain ⟨w, hw⟩ := no_deadlock hr hn hm hx
+    rw [hq w] at hw; cases hw
+  exact ⟨hd, (wk_reachable hr).over (by rw [hd]; rfl)⟩
+
+/-- the invariants behind it hold in every reachable state: a worker asleep at its loop head has nothing to do, a handler
+    asleep on its queue has an empty queue and is still owed a result or the finish flag, a caller asleep in
+    `threadpool_next` sees the pool exhausted, the owner asleep in `threadpool_destroy` sees an empty idle list and a
+    non-zero count, and the thread count is exactly the number of places occupied plus the threads being created -/
+theorem C13_kclient_sleepers {n max njobs : Nat} {o : Bool} {s : St} (hr : Reachable n max njobs o s) (hn : 1 ≤ n) :
+    (∀ t : Nat, s.thr[t]!.pc = .top true → s.thr[t]!.running = false) ∧
+    (∀ c : Nat, s.cl[c]!.hpc = .deq true → s.cl[c]!.queue = [] ∧ ¬ (s.cl[c]!.finished = true ∧ s.cl[c]!.nthreads = 0)) ∧
+    (∀ c : Nat, s.cl[c]!.pc = .next true → s.count = s.max) ∧
+    (s.opc = .destroy true → s.idle = [] ∧ s.count ≠ 0) ∧
+    s.count = s.idle.length + (oHand s.opc).length + sumA s.cl (plc s.ordered) + sumA s.thr wN := by
+  have L := live_reachable hn hr
+  exact ⟨L.strict, fun c => (L.cl c).deqSleep, L.phs.nextSleep, L.phs.destroySleep, L.tot⟩
+
 /-- non-vacuity of `C13_kclient_no_lost_wakeup`: a reachable state with a caller asleep in `threadpool_next` (two clients, pool
     of one worker: client 0 holds the worker, client 1 found the pool exhausted) -/
 def exSleepSched : List Lbl :=
@@ -295,6 +329,20 @@ def exSleepSched : List Lbl :=
    .run (.client 1) 0, .run (.client 1) 0, .run (.client 1) 0]
 def exSleep : St := exSleepSched.foldl (fun s l => (step s l).getD s) (init 2 1 1 true)
 example : (exSleep.cl.toList.map (·.pc)) = [CPc.assign 0, CPc.next true] ∧ exSleep.count = 1 := by decide +kernel
+
+/-- non-vacuity of `C13_kclient_no_deadlock`: in the state `exSleep` below (client 1 asleep in `threadpool_next`, the pool's
+    only worker in client 0's hands) the owner has not finished and client 0 can move -/
+example : exSleep.opc ≠ .done ∧
+    (step exSleep (.run (.client 0) 0)).isSome = true := by
+  decide +kernel
+
+/-- why `1 ≤ max` is needed: with a pool of ZERO workers (which `mtbl_threadpool_init` never creates) the first dispatch
+    sleeps for ever — a reachable state, the owner waiting in `pthread_join`, nobody able to move -/
+example : Reachable 1 0 1 true (runAuto 20 (init 1 0 1 true)) ∧
+    ((runAuto 20 (init 1 0 1 true)).opc = .joinC 0 ∧
+     (allWho (runAuto 20 (init 1 0 1 true))).all (fun w => (step (runAuto 20 (init 1 0 1 true)) (.run w 0)).isNone) = true) :=
+  ⟨reachable_runAuto 20 .init, by decide +kernel⟩
+
 
 /-- non-vacuity of `C13_kclient_complete`: a reachable final state — two clients sharing a pool of ONE worker, two jobs each,
     run to the end under a first-enabled-thread scheduler — in which both client threads have returned -/
